@@ -33,7 +33,12 @@ class LinguaMakoExtractor(Extractor, MessageExtractor):
             yield from self.process_file(file_)
 
     def process_python(self, code, code_lineno, translator_strings):
-        source = code.getvalue().strip()
+        raw = code.getvalue()
+        source = raw.strip()
+        # strip() also removes lines in front of the code (at least the
+        # newline added by extract_nodes); count them so that the line
+        # numbers reported stay those of the template
+        skipped = raw[: len(raw) - len(raw.lstrip())].count("\n")
         if source.endswith(":"):
             if source in ("try:", "else:") or source.startswith("except"):
                 source = ""  # Ignore try/except and else
@@ -42,7 +47,7 @@ class LinguaMakoExtractor(Extractor, MessageExtractor):
             source += "pass"
         code = io.StringIO(source)
         for msg in self.python_extractor(
-            self.filename, self.options, code, code_lineno - 1
+            self.filename, self.options, code, code_lineno + skipped - 1
         ):
             if translator_strings:
                 msg = Message(
